@@ -381,7 +381,7 @@ func (t *Tree) AddHexaCharacter(text string) {
 }
 
 func (t *Tree) AddOctalCharacter(text string) {
-	octal, _ := strconv.ParseInt(text, 8, 8)
+	octal, _ := strconv.ParseInt(text, 8, 32)
 	t.PushFront(&node{Type: TypeCharacter, string: string(rune(octal))})
 }
 func (t *Tree) AddPredicate(text string)   { t.PushFront(&node{Type: TypePredicate, string: text}) }
